@@ -391,7 +391,9 @@ func readFloat(s []byte, y floatinfo) (r readFloatResult) {
 	// considered punting early if string has length > maxMantDigits, but doesn't account
 	// for trailing 0's e.g. 700000000000000000000 can be encoded exactly as it is 7e20
 
-	var nd, ndMant, dp int8
+	// nd, ndMant, dp count digits of s, so they must be as wide as len(s):
+	// narrower counters wrap on long literals (e.g. 0.000...0001).
+	var nd, ndMant, dp int
 	var sawdot, sawexp bool
 	var xu uint64
 
@@ -473,19 +475,19 @@ LOOP:
 					r.hardexp = true
 					return
 				}
-				var e int8
+				var e int
 				if s[i] < '0' || s[i] > '9' { // !isDigitChar(s[i]) { //
 					r.bad = true
 					return
 				}
-				e = int8(s[i] - '0')
+				e = int(s[i] - '0')
 				i++
 				if i < slen {
 					if s[i] < '0' || s[i] > '9' { // !isDigitChar(s[i]) { //
 						r.bad = true
 						return
 					}
-					e = e*fBase + int8(s[i]-'0') // (e << 1) + (e << 3) + int8(s[i]-'0')
+					e = e*fBase + int(s[i]-'0') // (e << 1) + (e << 3) + int(s[i]-'0')
 					i++
 				}
 				if eneg {
@@ -498,14 +500,15 @@ LOOP:
 	}
 
 	if r.mantissa != 0 {
-		r.exp = dp - ndMant
+		exp := dp - ndMant
 		// do not set ok=true for cases we cannot handle
-		if r.exp < -y.exactPow10 ||
-			r.exp > y.exactInts+y.exactPow10 ||
+		if exp < -int(y.exactPow10) ||
+			exp > int(y.exactInts)+int(y.exactPow10) ||
 			(y.mantbits != 0 && r.mantissa>>y.mantbits != 0) {
 			r.hardexp = true
 			return
 		}
+		r.exp = int8(exp) // in range: checked above
 	}
 
 	r.ok = true
